@@ -5,6 +5,15 @@ open Lean Jinns.Proto Jinns.Domain Jinns.Loaders Jinns.Minibatch
 
 namespace Jinns.Driver
 
+/-- non-finite floats cross the protocol as the strings "nan", "inf", "-inf": the innermost object key
+    under which the first one occurs, if any (scanned before any exact-rational parsing) -/
+private partial def nonFiniteKey (j : Json) (key : String) : Option String :=
+  match j with
+  | .str s => if s == "nan" || s == "inf" || s == "-inf" then some key else none
+  | .arr a => a.toList.findSome? (nonFiniteKey · key)
+  | .obj kvs => kvs.toList.findSome? fun kv => nonFiniteKey kv.2 kv.1
+  | _ => none
+
 private def optAt15 {β : Type} (j : Json) (k : String) (f : Json → Except String β) :
     Except String (Option β) := do
   match j.getObjVal? k with
@@ -227,7 +236,19 @@ private def handleMulti (j : Json) : Except String Json := do
       acc := acc.note 0 (Jinns.Holds.holdsC15Multi b netTables allSteps)
       pure (result15 none [] acc)
 
+/-- a non-finite entry anywhere in the observed arrays is a verdict of its own -/
+private def finiteFirst (h : Json → Except String Json) (j : Json) : Except String Json :=
+  match nonFiniteKey j "" with
+  | some key =>
+    let what := match key with
+      | "pin" => "obs-batch-input" | "val" => "obs-batch-value" | "eq" => "obs-batch-eq-param"
+      | "batch" => "param-batch" | "stores" => "param-store" | k => k
+    let acc : Acc15 := { clause := Jinns.Holds.c15NotFinite what }
+    pure ((result15 none [] acc).mergeObj (Json.mkObj [("nonfinite", Json.bool true)]))
+  | none => h j
+
 def opsC15 : List (String × (Json → Except String Json)) :=
-  [("c15_obs", handleObs), ("c15_param", handleParam), ("c15_multi", handleMulti)]
+  [("c15_obs", finiteFirst handleObs), ("c15_param", finiteFirst handleParam),
+   ("c15_multi", finiteFirst handleMulti)]
 
 end Jinns.Driver
